@@ -100,6 +100,8 @@ def gen_cfg(rng, max_vars=4, max_terms=3, max_prods=7, max_body=4, profile=None,
         start = "Z"          # start symbol without productions, not among the heads
     mode = "plain" if strings_only else rng.pick(HASH_MODES)
     valmode = "str" if mode == "plain" else "V"
+    if not strings_only and not reserved and rng.chance(0.06):
+        mode, valmode = "plain", "mixed"
     names = ["N:" + x for x in sorted(set(vs + ts + [start, FOREIGN]))]
     hashes = assign_hashes(rng, names, mode)
     return {"vars": vs, "terms": ts, "start": start, "prods": prods, "valmode": valmode, "hash": hashes,
@@ -108,9 +110,15 @@ def gen_cfg(rng, max_vars=4, max_terms=3, max_prods=7, max_body=4, profile=None,
 
 # ---------------------------------------------------------------------------
 
+MIXED = {"a": 1, "b": "b", "c": 2.5, "zz": "zz"}
+
+
 def val(case, name):
     # "alias": a variable whose *value* is spelled like a terminal's (they stay different grammar symbols)
     name = (case.get("alias") or {}).get(name, name)
+    if case["valmode"] == "mixed":
+        # terminal values of different, mutually incomparable types (int, str, float); variables stay strings
+        return MIXED.get(name, name)
     if case["valmode"] == "V":
         h = case["hash"].get("N:" + name)
         if h is None:
@@ -216,6 +224,8 @@ def shrink_cfg(case):
         if ident != case["hash"]:
             yield mk(hash=ident)
         yield mk(valmode="str", hash=None)
+    if case["valmode"] == "mixed":
+        yield mk(valmode="str")
 
 
 def prune_useless(case):
